@@ -767,7 +767,7 @@ fn node_ref<'b>(n: &'b GNode, path: &[usize]) -> &'b GNode {
 
 pub const DEFECTS: &[&str] = &[
     "unknown-element", "misplaced-element", "unknown-attribute", "unknown-enum-item", "foreign-enum-item", "version-element", "version-element-nested", "version-attribute",
-    "version-enum-item", "choice-conflict", "multiplicity", "missing-short-name", "missing-required-attr", "too-long", "pattern-mismatch",
+    "version-enum-item", "choice-conflict", "multiplicity", "multiplicity-nonadjacent", "missing-short-name", "missing-required-attr", "too-long", "pattern-mismatch",
     "not-a-number", "bad-entity", "bad-entity-sign", "trailing-data", "bad-version", "bad-namespace", "header-inside", "text-forbidden",
     "invalid-utf8", "element-in-chars", "empty-value",
 ];
@@ -1000,6 +1000,46 @@ impl<'a> G<'a> {
                                     }
                                 }
                             }
+                        }
+                    }
+                }
+                "multiplicity-nonadjacent" => {
+                    // X, Y, X : a single-occurrence child repeated with a different allowed sibling in between
+                    if !elem_only {
+                        continue;
+                    }
+                    let n = node_ref(root, p);
+                    let nodes: Vec<(usize, ElementName)> = n
+                        .items
+                        .iter()
+                        .enumerate()
+                        .filter_map(|(k, it)| if let GItem::Node(c) = it { ElementName::from_bytes(c.name.as_bytes()).ok().map(|nm| (k, nm)) } else { None })
+                        .collect();
+                    let single = |nm: ElementName| -> bool {
+                        match et.find_sub_element(nm, vm) {
+                            Some((_, idx)) => {
+                                let cm = et.get_sub_element_container_mode(&idx);
+                                (cm == ContentMode::Sequence || cm == ContentMode::Choice) && et.get_sub_element_multiplicity(&idx) != Some(ElementMultiplicity::Any)
+                            }
+                            None => false,
+                        }
+                    };
+                    for w in nodes.windows(2) {
+                        let ((ka, a), (kb, b)) = (w[0], w[1]);
+                        if a == b {
+                            continue;
+                        }
+                        if single(a) {
+                            // A, B  ->  A, B, A
+                            let dup = n.items[ka].clone();
+                            node_at(root, p).items.insert(kb + 1, dup);
+                            return true;
+                        }
+                        if single(b) {
+                            // A, B  ->  B, A, B
+                            let dup = n.items[kb].clone();
+                            node_at(root, p).items.insert(ka, dup);
+                            return true;
                         }
                     }
                 }
